@@ -226,6 +226,25 @@ def parseDecimalTypeOneDigitScale (cs : List Char) : Nat × Nat :=
   let (p, s) := parseDecimalType cs
   if s < 10 then (p, s) else (38, 0)
 
+/-! ## `integer_precision` (transforms.py): only a parameter-less DECIMAL/NUMBER becomes BIGINT -/
+
+inductive NumType where
+  | bigint
+  | decimal (p s : Nat)
+deriving DecidableEq, Repr
+
+/-- NUMBER / NUMBER(p) / NUMBER(p, s) as it reaches DuckDB -/
+def integerPrecision (params : List Nat) : NumType :=
+  match params with
+  | [] => .bigint
+  | [p] => .decimal p 0
+  | p :: s :: _ => .decimal p s
+
+/-- does a value of `digits` integer digits fit the type? (BIGINT: up to 18 digits always) -/
+def NumType.fitsIntDigits : NumType → Nat → Bool
+  | .bigint, d => d ≤ 18
+  | .decimal p s, d => d + s ≤ p
+
 /-! ## DATEADD result type (transforms.py:254 `dateadd_date_cast`, :291) -/
 
 inductive DUnit where
@@ -424,6 +443,14 @@ def topDownX (r : X → Option X) (e : X) : X :=
     | .n2 f a b => .n2 f (topDownX r a) (topDownX r b)
     | .n3 f a b c => .n3 f (topDownX r a) (topDownX r b) (topDownX r c)
 
+/-- an IN-PLACE rule (the node object is kept and patched — `regex_replace`, `json_extract_cast_as_varchar`): only the
+    node's own symbol changes and the traversal goes on into its children -/
+def inPlaceX (g : Nat → Nat) : X → X
+  | .leaf n => .leaf n
+  | .n1 f a => .n1 (g f) (inPlaceX g a)
+  | .n2 f a b => .n2 (g f) (inPlaceX g a) (inPlaceX g b)
+  | .n3 f a b c => .n3 (g f) (inPlaceX g a) (inPlaceX g b) (inPlaceX g c)
+
 /-- a context: a tree with one hole -/
 inductive Cx where
   | hole
@@ -452,6 +479,16 @@ def Cx.map (g : X → X) : Cx → Cx
   | .n3l f c b d => .n3l f (c.map g) (g b) (g d)
   | .n3m f a c d => .n3m f (g a) (c.map g) (g d)
   | .n3r f a b c => .n3r f (g a) (g b) (c.map g)
+
+/-- the context under an in-place rule: every node on the path is patched too -/
+def Cx.inPlace (g : Nat → Nat) : Cx → Cx
+  | .hole => .hole
+  | .n1 f c => .n1 (g f) (c.inPlace g)
+  | .n2l f c b => .n2l (g f) (c.inPlace g) (inPlaceX g b)
+  | .n2r f a c => .n2r (g f) (inPlaceX g a) (c.inPlace g)
+  | .n3l f c b d => .n3l (g f) (c.inPlace g) (inPlaceX g b) (inPlaceX g d)
+  | .n3m f a c d => .n3m (g f) (inPlaceX g a) (c.inPlace g) (inPlaceX g d)
+  | .n3r f a b c => .n3r (g f) (inPlaceX g a) (inPlaceX g b) (c.inPlace g)
 
 /-- the rule does not fire on any node on the path from the root to the hole (with `e` plugged in) -/
 def Cx.quiet (r : X → Option X) : Cx → X → Prop
